@@ -23,7 +23,7 @@
        ([rawtext_run t false false = Ok t]), and not adjacent to other raw text.
    Definitions only. *)
 From Soy Require Import Model.Bytes Model.Outcome Model.Num Model.Values Model.Ast Model.Token Model.RawText
-  Model.AstPrint Model.ExprParser Model.Parser Generated.Tables Spec.ExprSyntax.
+  Model.AstPrint Model.AstPrintCmd Model.ExprParser Model.Parser Generated.Tables Spec.ExprSyntax.
 Open Scope N_scope.
 
 Definition T_ldelim : tok := tk pit_LeftDelim 0 [123].
@@ -48,6 +48,26 @@ Definition call_name_toks (name : bstr) : list tok := global_toks 0 name.
 (* the text item of a {css} command *)
 Definition css_text (e : option node) (suffix : bstr) : bstr :=
   match e with Some x => printed x ++ [44; 32] ++ suffix | None => suffix end.
+
+(* ---- the children of a {msg}: raw text and html tags (as the parser splits a text item), and
+   placeholders of commands.  A maximal run of text and html-tag children is ONE text item; the
+   item's position is the end of the text (lexer.emit), the parts are positioned from its start
+   (/repo 1453953) ---- *)
+Definition v_desc := Eval vm_compute in b "desc".
+Definition v_meaning := Eval vm_compute in b "meaning".
+Definition text_of (n : node) : bstr :=
+  match n with
+  | NRawText _ t => t
+  | NMsgPlaceholder _ _ (NMsgHtmlTag _ t) => t
+  | _ => []
+  end.
+Definition run_text (run : list node) : bstr := concat_b (map text_of run).
+Definition run_pos (run : list node) : N :=
+  match run with f :: _ => pos_of f + N.of_nat (length (run_text run)) | [] => 0 end.
+Definition run_tok (run : list node) : list tok :=
+  match run with [] => [] | _ :: _ => [tk pit_Text (run_pos run) (run_text run)] end.
+(* %q of MsgNode.String ("" outside the printer model's domain: excluded by wf) *)
+Definition quoted_attr (s : bstr) : bstr := match go_quote s with Some q => q | None => [] end.
 
 Fixpoint cmd_toks (n : node) : list tok :=
   let body (x : node) : list tok := match x with NList _ ns => concat (map cmd_toks ns) | _ => [] end in
@@ -109,6 +129,22 @@ Fixpoint cmd_toks (n : node) : list tok :=
        end)
   (* {css e, suffix}: the scanner sends everything up to "}" as one text item *)
   | NCss p e suffix => [T_ldelim; kw pit_Css p; tk pit_Text 0 (css_text e suffix); T_rdelim]
+  (* {msg meaning="m" desc="d"}...{/msg}: [run] collects the text and html-tag children seen since the last command *)
+  | NMsg p _ meaning desc children =>
+      let fix go (run : list node) (l : list node) : list tok :=
+        match l with
+        | [] => run_tok run
+        | x :: r =>
+            match x with
+            | NRawText _ _ => go (run ++ [x]) r
+            | NMsgPlaceholder _ _ (NMsgHtmlTag _ _) => go (run ++ [x]) r
+            | NMsgPlaceholder _ _ c => run_tok run ++ cmd_toks c ++ go [] r
+            | _ => run_tok run ++ go [] r
+            end
+        end in
+      [T_ldelim; kw pit_Msg p] ++
+      (match meaning with [] => [] | _ => attr_toks v_meaning (quoted_attr meaning) end) ++
+      attr_toks v_desc (quoted_attr desc) ++ [T_rdelim] ++ go [] children ++ close_tag pit_MsgEnd
   | _ => []
   end.
 
@@ -136,6 +172,14 @@ Definition no_byte (c : N) (s : bstr) : Prop := forallb (fun x => negb (x =? c))
 (* a template name as {call} reads it back: at least one dot, not at the front *)
 Definition call_name_ok (name : bstr) : Prop :=
   exists first r1 rest, split_dots [] name = first :: r1 :: rest /\ first <> [].
+
+(* a run of text / html-tag children is what parseMsgRawText makes of its text item *)
+Definition run_ok (run : list node) : Prop :=
+  match run with
+  | [] => True
+  | _ :: _ => run_text run <> [] /\ rawtext_run (run_text run) false false = Ok (run_text run) /\
+              msg_raw_text (run_pos run) (run_text run) = run
+  end.
 
 Section Wf.
 (* the scanner run on an attribute value / the expression part of {css} (lexExpr) *)
@@ -201,6 +245,23 @@ Fixpoint wf_cmd (m : bool) (n : node) : Prop :=
       | Some x => quoted_ok x /\ trim_space (printed x) = printed x
       | None => True
       end
+  (* {msg}: not inside a {msg}; the id is assigned later (0 from the parser); the children are runs
+     of text / html tags as parseMsgRawText splits them, and unnamed placeholders positioned at
+     their command, which is well-formed inside a {msg}.  {plural} is not covered. *)
+  | NMsg _ id meaning desc children =>
+      let fix go (run : list node) (l : list node) : Prop :=
+        match l with
+        | [] => run_ok run
+        | x :: r =>
+            match x with
+            | NRawText _ _ => go (run ++ [x]) r
+            | NMsgPlaceholder _ _ (NMsgHtmlTag _ _) => go (run ++ [x]) r
+            | NMsgPlaceholder q nm c =>
+                run_ok run /\ nm = [] /\ q = pos_of c /\ is_rawtext c = false /\ wf_cmd true c /\ go [] r
+            | _ => False
+            end
+        end in
+      m = false /\ id = 0 /\ go_quote meaning <> None /\ go_quote desc <> None /\ go [] children
   | _ => False
   end.
 
